@@ -236,13 +236,164 @@ Definition tr_roundtrip_ok (t : tr) (x : list Z) (w : wire) : bool :=
   | TDns _ _, _ => false
   end.
 
+(* ---- the send and receive paths (c2.writePacket / c2.readPacket) -------------------------------- *)
+(* what Transform.Write may put on the connection for the bytes x: the DNS transform picks any of
+   its domains and draws random bytes *)
+Definition tr_sends (t : tr) (x w : list Z) : Prop :=
+  match t with
+  | TNone => w = x
+  | TB64 s => w = b64t_enc s x
+  | TDns server ds => exists d rnd, In d ds /\ w = dns_encode server d rnd x
+  end.
+
+Section Path.
+  Variable packet : Type.
+  Variable marshal : packet -> list Z.                 (* com.Packet.Marshal (property C01) *)
+  Variable unmarshal : list Z -> res packet.           (* com.Packet.Unmarshal *)
+
+  (* writePacket: marshal through the wrapper stack into a buffer, the transform writes the buffer *)
+  Definition path_sends (ws : list wrapper) (t : tr) (p : packet) (w : list Z) : Prop :=
+    tr_sends t (wrap_stack ws (marshal p)) w.
+  (* readPacket: the transform reads the whole input into a buffer, the stack unwraps it, Unmarshal *)
+  Definition path_recv (ws : list wrapper) (t : tr) (w : list Z) : res packet :=
+    do y <- tr_dec t w; do plain <- unwrap_stack ws y; unmarshal plain.
+End Path.
+
+(* ---- the buffer pool of c2/vars.go (`buffers`, a sync.Pool of *data.Chunk) as state ------------
+   A pool is the list of the contents of the Chunks it holds.  Every user (writePacket, readPacket)
+   takes a Chunk, APPENDS to it, and gives it back with returnBuffer (= Clear; Put).  Which Chunk
+   sync.Pool.Get hands out is unspecified: `pick` (an index; beyond the pool = a new Chunk). *)
+Definition pool : Type := list (list Z).
+
+Fixpoint remove_nth {A} (n : nat) (l : list A) : list A :=
+  match n, l with
+  | _, [] => []
+  | O, _ :: r => r
+  | S m, x :: r => x :: remove_nth m r
+  end.
+Definition pool_get (pick : nat) (p : pool) : list Z * pool :=
+  match nth_error p pick with
+  | Some b => (b, remove_nth pick p)
+  | None => ([], p)                                  (* Pool.New: new(data.Chunk) *)
+  end.
+(* returnBuffer: c.Clear(); buffers.Put(c) *)
+Definition return_buffer (b : list Z) (p : pool) : pool := [] :: p.
+(* buffers.Put(c) alone: what none of the code's return paths does *)
+Definition put_uncleared (b : list Z) (p : pool) : pool := b :: p.
+
+(* Transform.Read: the bytes handed to the output writer, and whether it returned nil.  B64 writes
+   only after a successful decode; DNS writes record by record *)
+Definition tr_read (t : tr) (w : list Z) : list Z * bool :=
+  match t with
+  | TNone => (w, true)
+  | TB64 s => match b64t_dec s w with Ok y => (y, true) | _ => ([], false) end
+  | TDns _ _ => (dns_out w, is_ok (dns_decode w))
+  end.
+
+(* where readPacket gave up: 1 nothing read from the stream, 2 the transform, 3 unwrap / unmarshal *)
+Inductive rstage : Type := ROk | RStream | RTransform | RLater.
+
+Section PoolPath.
+  Variable packet : Type.
+  Variable marshal : packet -> list Z.
+  Variable unmarshal : list Z -> res packet.
+  Variable ws : list wrapper.
+  Variable t : tr.
+  (* how the error path of the transform gives the output Chunk back: true = returnBuffer (the code) *)
+  Variable clear_on_transform_error : bool.
+
+  Definition direct : bool := is_nil ws && match t with TNone => true | _ => false end.
+
+  (* writePacket: b = Get; writePacketTo appends wrap(marshal n) to b; the transform writes
+     b.Payload() to the connection (enc: the transform's encoder with the draws of this call);
+     returnBuffer(b) *)
+  Definition write_packet (enc : list Z -> list Z) (pick : nat) (p : pool) (n : packet) : pool * list Z :=
+    if direct then (p, marshal n)
+    else
+      let '(b, p1) := pool_get pick p in
+      let b1 := b ++ wrap_stack ws (marshal n) in
+      (return_buffer b1 p1, enc b1).
+
+  (* readPacket on the bytes `conn` the connection delivers before the timeout / EOF *)
+  Definition read_packet (pick1 pick2 : nat) (p : pool) (conn : list Z) : pool * rstage * res packet :=
+    if direct then
+      match unmarshal conn with Ok n => (p, ROk, Ok n) | r => (p, RLater, r) end
+    else
+      let '(b, p1) := pool_get pick1 p in
+      let b1 := b ++ conn in                                        (* b.ReadDeadline(c, ...) appends *)
+      if is_nil conn then (return_buffer b1 p1, RStream, Err EOF_)  (* d == 0 *)
+      else
+        let finish (buf : list Z) (pl : pool) :=                    (* readPacketFrom; returnBuffer(b) *)
+          match (do plain <- unwrap_stack ws buf; unmarshal plain) with
+          | Ok n => (return_buffer buf pl, ROk, Ok n)
+          | r => (return_buffer buf pl, RLater, r)
+          end in
+        match t with
+        | TNone => finish b1 p1
+        | _ =>
+          let '(o, p2) := pool_get pick2 p1 in
+          let '(out, ok) := tr_read t b1 in
+          let o1 := o ++ out in                                     (* t.Read(b.Payload(), o) appends *)
+          let p3 := return_buffer b1 p2 in
+          if ok then finish o1 p3
+          else ((if clear_on_transform_error then return_buffer o1 p3 else put_uncleared o1 p3),
+                RTransform, Err EBadInput)
+        end.
+End PoolPath.
+
+Definition pool_clean (p : pool) : bool := forallb is_nil p.
+
+(* ---- history cases: one process, one profile, a sequence of good round trips and faulty receives *)
+Inductive hstep : Type :=
+| HGood (plain : pay) (ok : bool)                 (* the marshalled packet; did Go read back the identical packet *)
+| HBad (conn : list Z) (stage : Z)                (* bytes put on the connection; Go: 0 ok, 1 stream, 2 transform, 3 later *)
+| HProbe (sizes : list Z).                        (* sizes of the Chunks found in the pool *)
+
+Definition tr_enc0 (t : tr) (x : list Z) : list Z :=
+  match t with
+  | TNone => x
+  | TB64 s => b64t_enc s x
+  | TDns server ds => dns_encode server (hd [] ds) (fun _ _ => 0) x
+  end.
+
+(* the packet codec is not modelled here: a packet is its marshalled bytes *)
+Definition h_write (ws : list wrapper) (t : tr) := write_packet (list Z) (fun p => p) ws t (tr_enc0 t) 0.
+Definition h_read (ws : list wrapper) (t : tr) := read_packet (list Z) (fun w => Ok w) ws t true 0 0.
+
+Definition stage_ok (model : rstage) (observed : Z) : bool :=
+  match model with
+  | RStream => observed =? 1
+  | RTransform => observed =? 2
+  | _ => (observed =? 0) || (observed =? 3)       (* whether unwrap / unmarshal accept a damaged input is not modelled *)
+  end.
+
+Fixpoint hist_ok (ws : list wrapper) (t : tr) (steps : list hstep) (p : pool) : bool :=
+  match steps with
+  | [] => pool_clean p
+  | HGood plain ok :: r =>
+    let x := pay_bytes plain in
+    let '(p1, w) := h_write ws t p x in
+    let '(p2, _, res) := h_read ws t p1 w in
+    ok && res_eqb zlist_eqb res (Ok x) && pool_clean p2 && hist_ok ws t r p2
+  | HBad conn stage :: r =>
+    let '(p1, st, _) := h_read ws t p conn in
+    stage_ok st stage && pool_clean p1 && hist_ok ws t r p1
+  | HProbe sizes :: r =>
+    pool_clean p && forallb (fun s => s =? 0) sizes && hist_ok ws t r p
+  end.
+
+(* ---- the cases and their check ------------------------------------------------------------------ *)
 Inductive case : Type :=
 | CStack (ws : list elem) (p : pay) (w : wire)
 | CTrans (t : tr) (p : pay) (w : wire)
 | CFull (ws : list elem) (t : tr) (p : pay) (w : wire)        (* p = the bytes of Packet.Marshal *)
 | CBlock (offs : list Z) (gh : list (Z * Z)) (blk enc dec2 : list Z)
 (* the CBK writer driven by the Write calls the harness made: ks = the length of every call *)
-| CCbkW (size : Z) (offs : list Z) (items : list (list Z * list (Z * Z))) (p : pay) (ks : list Z) (w : wire).
+| CCbkW (size : Z) (offs : list Z) (items : list (list Z * list (Z * Z))) (p : pay) (ks : list Z) (w : wire)
+(* Transform.Read on damaged input: the bytes it wrote and whether it returned nil *)
+| CTrRead (t : tr) (conn out : list Z) (ok : bool)
+(* a history of good round trips, faulty receives and pool probes in one process *)
+| CHist (ws : list elem) (t : tr) (steps : list hstep).
 
 Fixpoint split_by (ks : list Z) (x : list Z) : list (list Z) :=
   match ks with
@@ -268,27 +419,8 @@ Definition check (c : case) : bool :=
     zlist_eqb (blk_encrypt offs (steps_of gh) blk) enc && zlist_eqb (blk_decrypt offs (steps_of gh) blk) dec2
   | CCbkW size offs items p ks w =>
     wire_eqb (cbk_run (Z.to_nat size) offs (consts_of items) (split_by ks (pay_bytes p))) w
+  | CTrRead t conn out ok =>
+    let '(o, k) := tr_read t conn in zlist_eqb o out && Bool.eqb k ok
+  | CHist es t steps => hist_ok (map elem_w es) t steps []
   end.
 
-(* ---- the send and receive paths (c2.writePacket / c2.readPacket) -------------------------------- *)
-(* what Transform.Write may put on the connection for the bytes x: the DNS transform picks any of
-   its domains and draws random bytes *)
-Definition tr_sends (t : tr) (x w : list Z) : Prop :=
-  match t with
-  | TNone => w = x
-  | TB64 s => w = b64t_enc s x
-  | TDns server ds => exists d rnd, In d ds /\ w = dns_encode server d rnd x
-  end.
-
-Section Path.
-  Variable packet : Type.
-  Variable marshal : packet -> list Z.                 (* com.Packet.Marshal (property C01) *)
-  Variable unmarshal : list Z -> res packet.           (* com.Packet.Unmarshal *)
-
-  (* writePacket: marshal through the wrapper stack into a buffer, the transform writes the buffer *)
-  Definition path_sends (ws : list wrapper) (t : tr) (p : packet) (w : list Z) : Prop :=
-    tr_sends t (wrap_stack ws (marshal p)) w.
-  (* readPacket: the transform reads the whole input into a buffer, the stack unwraps it, Unmarshal *)
-  Definition path_recv (ws : list wrapper) (t : tr) (w : list Z) : res packet :=
-    do y <- tr_dec t w; do plain <- unwrap_stack ws y; unmarshal plain.
-End Path.
